@@ -661,6 +661,9 @@ impl Global {
                 eprintln!("INCONCLUSIVE replay stage not found");
                 return 2;
             }
+            if code == 0 && std::env::var("TACHECK_QUIET_REPLAY").is_err() {
+                println!("{}: replayed case holds (no violation)", self.id);
+            }
             return code;
         }
         if self.stats.samples.is_empty() {
